@@ -128,6 +128,10 @@ def exec_typing(r):
         else:
             rec2 = record(transform(seq, tw))
         ev["twin"] = {"by": tw["by"], "k": tw.get("k", 0), "res": query(cls, rec2)}
+        if tw["by"] == "rot" and not ev["cls"]["toks"]:
+            # a class whose pattern is outside the modelled language: the precondition of C02 ("exactly one occurrence") is
+            # evaluated here with Python's re, independently of moclo.regex (see dna.occurrences_any_origin)
+            ev["occ"] = dna.occurrences_any_origin(cls.structure(), seq)
     if r.get("gen"):
         g = classes.build(classes.generic_spec_for(cls))
         ev["gen"] = {"has": True, "toks": classes.describe(g)["toks"], "res": query(g, record(seq))}
